@@ -47,6 +47,7 @@ type c18Cluster struct {
 	notes       []string
 	rf          int
 	q           *c03Quorum      // C03conc: oracle evaluated when a mutating data call reaches a replica (nil otherwise)
+	verOK       map[int]bool    // node -> its last VerifyRebuildReplica succeeded (RbOff follows only then)
 	failREST    map[string]bool // "node/action": the REST call fails with a connection error
 	slowREST    map[string]bool // "node/action": the REST call parks until releaseSlow
 	releaseSlow bool
@@ -377,11 +378,19 @@ func (cl *c18Cluster) op(name string) string {
 	case strings.HasPrefix(name, "Add"):
 		return name + ":" + e(c.AddReplica(c18addr(idx())))
 	case strings.HasPrefix(name, "Ver"):
+		// the controller half of the end of a rebuild; the replica's own half (RbOff) is a separate call
 		err := c.VerifyRebuildReplica(c18addr(idx()))
-		if err == nil {
-			cl.rest(idx(), "setrebuilding", `{"rebuilding":false}`)
+		if cl.verOK == nil {
+			cl.verOK = map[int]bool{}
 		}
+		cl.verOK[idx()] = err == nil
 		return name + ":" + e(err)
+	case strings.HasPrefix(name, "RbOff"):
+		// what sync.AddReplica does on the replica after a successful verification: clear the rebuilding flag
+		if !cl.verOK[idx()] {
+			return name + ":skipped"
+		}
+		return name + ":" + e(cl.rest(idx(), "setrebuilding", `{"rebuilding":false}`))
 	case strings.HasPrefix(name, "Mon"):
 		r := cl.bes[idx()]
 		if r == nil {
@@ -515,7 +524,7 @@ func (cl *c18Cluster) invariants() []string {
 // second half of AddReplica op k.
 func c18Run(cfg *C18Cfg, ch vs.Chooser, trace bool, order []string) (string, *vs.Result) {
 	outcome := ""
-	res := vs.Run(vs.Config{Chooser: ch, Horizon: 20000, Trace: trace}, func() {
+	res := vs.Run(vs.Config{Chooser: ch, PostUnlockPoints: true, Horizon: 20000, Trace: trace}, func() {
 		vs.NoChoice(true) // the sequential build of the initial membership is not explored
 		cl, err := c18Build(cfg.Init)
 		if err != nil {
@@ -702,7 +711,7 @@ func c18Configs(tier string) []C18Cfg {
 	} {
 		add("rw3", p...)
 	}
-	for _, p := range [][]string{{"W0", "Ver2"}, {"R", "Ver2"}, {"Ver2", "Rm1"}, {"Ver2", "Mon0"}, {"Ver2", "Rm2"}, {"Ver2", "Mon2"}, {"Snap", "Ver2"}} {
+	for _, p := range [][]string{{"W0", "Ver2+RbOff2"}, {"R", "Ver2+RbOff2"}, {"Ver2+RbOff2", "Rm1"}, {"Ver2+RbOff2", "Mon0"}, {"Ver2+RbOff2", "Rm2"}, {"Ver2+RbOff2", "Mon2"}, {"Snap", "Ver2+RbOff2"}} {
 		add("rw2wo", p...)
 	}
 	for _, p := range [][]string{{"W0", "Add2"}, {"R", "Add2"}, {"Add2", "Rm1"}, {"Add2", "Mon0"}, {"Add2", "Add3"}, {"Add2", "Add2"}, {"Snap", "Add2"}} {
@@ -718,7 +727,7 @@ func c18Configs(tier string) []C18Cfg {
 	if tier == "thorough" {
 		add("rw3", "W0", "Rm1", "Mon2")
 		add("rw3", "W0", "R", "Mon1")
-		add("rw2wo", "W0", "Ver2", "Mon0")
+		add("rw2wo", "W0", "Ver2+RbOff2", "Mon0")
 		add("rw2", "W0", "Add2", "Mon0")
 	}
 	return out
@@ -739,18 +748,18 @@ func c13Configs(tier string) []C18Cfg {
 	for _, p := range [][]string{{"Snap", "Mon1"}, {"Snap", "Rm0"}, {"Snap", "W0"}} {
 		add("rf2", p...)
 	}
-	for _, p := range [][]string{{"Snap", "Ver2"}, {"Snap", "Mon2"}, {"Snap", "Mon0"}} {
+	for _, p := range [][]string{{"Snap", "Ver2+RbOff2"}, {"Snap", "Mon2"}, {"Snap", "Mon0"}} {
 		add("rw2wo", p...)
 	}
 	add("rw2", "Snap", "Add2")
 	// a checkpoint fan-out in which one replica fails the call and another one is slow, while the membership moves on to
 	// a newer checkpoint: afterwards every RW replica persists the checkpoint the controller recorded
-	out = append(out, C18Cfg{Name: "cpslow", Init: "rw2wo", Ops: []string{"FailCp0+SlowCp1+Ver2", "Rm0+Add3+Sync3+Ver3"}})
-	out = append(out, C18Cfg{Name: "cpslow", Init: "rw2wo", Ops: []string{"SlowCp1+Ver2", "Mon0+Add3+Sync3+Ver3"}})
+	out = append(out, C18Cfg{Name: "cpslow", Init: "rw2wo", Ops: []string{"FailCp0+SlowCp1+Ver2+RbOff2", "Rm0+Add3+Sync3+Ver3+RbOff3"}})
+	out = append(out, C18Cfg{Name: "cpslow", Init: "rw2wo", Ops: []string{"SlowCp1+Ver2+RbOff2", "Mon0+Add3+Sync3+Ver3+RbOff3"}})
 	if tier == "thorough" {
 		add("rw3", "Snap", "Rm1", "W0")
 		add("rw3", "Snap", "Mon1", "Mon2")
-		add("rw2wo", "Snap", "Ver2", "W0")
+		add("rw2wo", "Snap", "Ver2+RbOff2", "W0")
 	}
 	return out
 }
@@ -763,14 +772,14 @@ func checkC13() int { return checkSimple("C13", "C13conc", "C13-conc.part") }
 func c04Configs(tier string) []C18Cfg {
 	var out []C18Cfg
 	add := func(init string, ops ...string) { out = append(out, C18Cfg{Name: "read", Init: init, Ops: ops}) }
-	for _, p := range [][]string{{"RF", "Ver2"}, {"RF0", "Ver2"}, {"R", "Ver2"}, {"RF", "RW2"}, {"RF0", "RW2"}, {"RF", "Rm2"}, {"RF", "Mon2"}, {"R", "Err0"}, {"RF0", "Err1"}, {"RF", "W0"}} {
+	for _, p := range [][]string{{"RF", "Ver2+RbOff2"}, {"RF0", "Ver2+RbOff2"}, {"R", "Ver2+RbOff2"}, {"RF", "RW2"}, {"RF0", "RW2"}, {"RF", "Rm2"}, {"RF", "Mon2"}, {"R", "Err0"}, {"RF0", "Err1"}, {"RF", "W0"}} {
 		add("rw2wo", p...)
 	}
 	for _, p := range [][]string{{"RF", "Rm2"}, {"RF0", "Mon1"}, {"RF", "Err2"}, {"RF0", "R"}, {"RF0", "W0"}} {
 		add("rw3", p...)
 	}
 	if tier == "thorough" {
-		add("rw2wo", "RF", "Ver2", "W0")
+		add("rw2wo", "RF", "Ver2+RbOff2", "W0")
 		add("rw3", "RF0", "R", "Mon1")
 	}
 	return out
@@ -790,12 +799,12 @@ func c02Configs(tier string) []C18Cfg {
 	for _, p := range [][]string{{"W0", "Add2"}, {"WF1", "Add2"}, {"WF0", "Add2"}} {
 		add("rw2", p...)
 	}
-	for _, p := range [][]string{{"W0", "Ver2"}, {"WF1", "Ver2"}, {"WF2", "Ver2"}, {"W0", "RW2"}, {"WF1", "RW2"}, {"WF2", "Rm1"}, {"WF0", "Mon2"}} {
+	for _, p := range [][]string{{"W0", "Ver2+RbOff2"}, {"WF1", "Ver2+RbOff2"}, {"WF2", "Ver2+RbOff2"}, {"W0", "RW2"}, {"WF1", "RW2"}, {"WF2", "Rm1"}, {"WF0", "Mon2"}} {
 		add("rw2wo", p...)
 	}
 	if tier == "thorough" {
 		add("rw3", "WF1", "Err2", "W0")
-		add("rw2wo", "WF1", "Ver2", "W0")
+		add("rw2wo", "WF1", "Ver2+RbOff2", "W0")
 	}
 	return out
 }
@@ -808,11 +817,11 @@ func checkC02() int { return checkSimple("C02", "C02conc", "C02-conc.part") }
 func c10PromConfigs(tier string) []C18Cfg {
 	var out []C18Cfg
 	add := func(init string, ops ...string) { out = append(out, C18Cfg{Name: "promotion", Init: init, Ops: ops}) }
-	for _, p := range [][]string{{"W0", "Ver2"}, {"W1", "Ver2"}, {"WF1", "Ver2"}, {"W0", "W1", "Ver2"}, {"Ver2", "Snap"}, {"Ver2", "Mon0"}} {
+	for _, p := range [][]string{{"W0", "Ver2+RbOff2"}, {"W1", "Ver2+RbOff2"}, {"WF1", "Ver2+RbOff2"}, {"W0", "W1", "Ver2+RbOff2"}, {"Ver2+RbOff2", "Snap"}, {"Ver2+RbOff2", "Mon0"}} {
 		add("rw2wo", p...)
 	}
 	if tier == "thorough" {
-		add("rw2wo", "W0", "WF1", "Ver2")
+		add("rw2wo", "W0", "WF1", "Ver2+RbOff2")
 	}
 	return out
 }
@@ -825,18 +834,18 @@ func checkC10prom() int { return checkSimple("C10", "C10prom", "C10-prom.part") 
 func c05ConcConfigs(tier string) []C18Cfg {
 	var out []C18Cfg
 	add := func(init string, ops ...string) { out = append(out, C18Cfg{Name: "failure", Init: init, Ops: ops}) }
-	out = append(out, C18Cfg{Name: "readd", Init: "rw2wo", Ops: []string{"Ver2", "WF2+Restart2+Add2"}})
+	out = append(out, C18Cfg{Name: "readd", Init: "rw2wo", Ops: []string{"Ver2+RbOff2", "WF2+Restart2+Add2"}})
 	out = append(out, C18Cfg{Name: "readd", Init: "rw3", Ops: []string{"WF1+Restart1+Add1", "W0"}})
 	out = append(out, C18Cfg{Name: "readd", Init: "rw3", Ops: []string{"WF1+Restart1+Add1", "Mon1"}})
-	out = append(out, C18Cfg{Name: "readd", Init: "rw2wo", Ops: []string{"Ver2", "Mon2+Restart2+Add2"}})
-	for _, p := range [][]string{{"Ver2", "WF2"}, {"Ver2", "Mon2"}, {"Ver2", "Rm2"}, {"Ver2", "Err2"}, {"Ver2", "WF0"}, {"Ver2", "Mon0"}} {
+	out = append(out, C18Cfg{Name: "readd", Init: "rw2wo", Ops: []string{"Ver2+RbOff2", "Mon2+Restart2+Add2"}})
+	for _, p := range [][]string{{"Ver2+RbOff2", "WF2"}, {"Ver2+RbOff2", "Mon2"}, {"Ver2+RbOff2", "Rm2"}, {"Ver2+RbOff2", "Err2"}, {"Ver2+RbOff2", "WF0"}, {"Ver2+RbOff2", "Mon0"}} {
 		add("rw2wo", p...)
 	}
 	for _, p := range [][]string{{"WF1", "Mon1"}, {"WF1", "Rm1"}, {"WF1", "Err1"}, {"Mon1", "Err1"}, {"WF1", "R"}, {"Mon1", "R"}} {
 		add("rw3", p...)
 	}
 	if tier == "thorough" {
-		out = append(out, C18Cfg{Name: "readd", Init: "rw2wo", Ops: []string{"Ver2", "WF2+Restart2+Add2", "W0"}})
+		out = append(out, C18Cfg{Name: "readd", Init: "rw2wo", Ops: []string{"Ver2+RbOff2", "WF2+Restart2+Add2", "W0"}})
 		add("rw3", "WF1", "Mon1", "R")
 	}
 	return out
